@@ -20,7 +20,7 @@ ASSUMPTIONS = [
 ]
 REQUIRED = ['pass_with_mixed_priorities', 'fired_from_handler_during_pass', 'stop_called', 'nested_flush', 'equal_priority_ties',
             'negative_and_float_priorities', 'nested_flush_on_last_of_batch', 'multi_channel_event', 'stop_then_raise',
-            'manager_with_many_events_behind_it']
+            'manager_with_many_events_behind_it', 'events_pending_on_a_component_that_joins_the_tree']
 REQUIRED_OBLIGATIONS = ['ORD', 'NOJUMP', 'NOREENTRY', 'HPRIO', 'STOP', 'ONCE']
 WORKER_TIMEOUT = {'quick': 300, 'thorough': 1500}
 ENGINE = 'stepping-driver'
@@ -51,6 +51,20 @@ def run_case(case):
         while len(w.app):
             w.app.flush()
     for ext in case['passes']:
+        if isinstance(ext, dict):
+            # events fired on a component that is not registered yet (they wait in its own queue), which then joins the tree: the
+            # joined events are dispatched by the root in priority order, ties in the order they were fired
+            from circuits import BaseComponent
+            for _ in range(200):        # (nothing else is pending in the tree: an order between events counted by two different
+                if not len(w.app):      #  queues is not defined by anything)
+                    break
+                w.flush()
+            joiner = BaseComponent()
+            for spec in ext['join']:
+                w.fire(spec, target=joiner)
+            joiner.register(w.app)
+            w.flush()
+            continue
         for spec in ext:
             w.fire(spec)
         w.flush()
@@ -66,6 +80,8 @@ def run_case(case):
 def evaluate(case, w):
     problems = []
     marks = set()
+    if any(isinstance(p_, dict) for p_ in case['passes']):
+        marks.add('events_pending_on_a_component_that_joins_the_tree')
     if case.get('preload'):
         marks.add('manager_with_many_events_behind_it')
     counts = {'ORD': 0, 'NOJUMP': 0, 'NOREENTRY': 0, 'HPRIO': 0, 'STOP': 0, 'ONCE': 0, 'ALLRUN': 0}
@@ -224,6 +240,11 @@ def corpus():
         HD(1, 'a', 0, [['fire', EV('b', -2)]]), HD(2, 'b', 0, [['fire', EV('c', -2)]]), HD(3, 'c', 0, [['fire', EV('d', -2)]]), HD(4, 'd', 0, []),
         HD(5, 'a', 1, [['fire', EV('d', 3)]])],
         'passes': [[EV('a', 0), EV('d', 0), EV('a', -1), EV('d', 1)]]})
+    # events waiting on a not yet registered component, which then joins
+    jh = [HD(1, 'a', 0, [['fire', EV('c', -1)]]), HD(2, 'b', 0, []), HD(3, 'c', 0, [])]
+    cs.append({'name': 'late-join', 'handlers': jh, 'passes': [
+        {'join': [EV('a', 0), EV('b', 0), EV('c', 0), EV('a', 1), EV('b', -0.5), EV('b', 0), EV('c', 1), EV('a', 0)]},
+        [EV('a', 0), EV('b', 0)], {'join': [EV('b', 0), EV('a', 0), EV('c', 0)]}, {'join': [EV('c', 2.5), EV('c', 2.5), EV('a', -2)]}]})
     # the same ordering guarantees on a manager that has already processed many events; the passes straddle 2**15, 2**16 and 2**17
     # events in the manager's lifetime, at every alignment of the batch
     tie = {'handlers': [HD(1, 'a', 0, [['fire', EV('c', -1)], ['fire', EV('c', 0)]]), HD(2, 'b', 0, [['fire', EV('c', 0)]]), HD(3, 'c', 0, [])],
@@ -268,6 +289,9 @@ def gen_case(rng):
         for ps in passes:
             if rng.random() < 0.7:
                 ps.insert(rng.randint(0, len(ps)), dict(EV('mc', rng.choice(PRIOS)), channels=rng.sample(['a', 'b', 'c'], rng.randint(1, 3))))
+    if rng.random() < 0.2:
+        for _ in range(rng.randint(1, 2)):
+            passes.insert(rng.randint(0, len(passes)), {'join': [EV(rng.choice(names[rng.randint(0, nlev - 1)]), rng.choice(PRIOS)) for _ in range(rng.randint(2, 7))]})
     case = {'handlers': handlers, 'passes': passes}
     if rng.random() < 0.01:
         case['preload'] = rng.choice([1 << 15, 1 << 16]) - rng.randint(0, 12)
